@@ -20,13 +20,15 @@ RULE = (
     "random/hostile) is forced into the first record of at least one sequence per access path family; the rest are "
     "random mixes; 'rewrite' cases hand the SAME record objects to the writer three times, each record being updated in place "
     "between the writes through the mutable values it holds (typed-list methods, digest / command attributes, fields of nested "
-    "records) - every write must emit the state at that moment.  A case is non-trivial when at least one record was written and read back; distinct = distinct "
+    "records, untyped values appended / assigned into typed lists in place - observed as what the element type makes of them) - every "
+    "write must emit the state at that moment; 'surrogate' cases hold text with lone surrogates outside U+DC80..DCFF: a record the "
+    "packer refuses with UnicodeEncodeError is left out, one it accepts must round-trip like any other.  A case is non-trivial when at least one record was written and read back; distinct = distinct "
     "(recipe kind, focus cell, access path, sub-seed).  Oracle: canonical deep observation (class names, float bits, "
     "code points, wall clock + utcoffset, flavour, address family, list order; typed-list/digest None == empty default) "
     "of what was written, taken before writing, equals that of what was read; Record.__eq__ is never used."
 )
 ASSUMPTIONS = [
-    "values are drawn from the generator pools in verif/gen.py (sub-second UTC offsets and lone surrogates outside U+DC80-DCFF are not generated)",
+    "values are drawn from the generator pools in verif/gen.py (sub-second UTC offsets are not generated; lone surrogates outside U+DC80-DCFF only in the 'surrogate' cases, where refusal by the packer is accepted)",
     "observation reads values through public behaviour (str(), int(), attributes) of the field types",
 ]
 SHARDS = {"quick": 8, "thorough": 16}
@@ -81,6 +83,9 @@ def generate(ctx):
     # fields of nested records): every write must emit the record's state at that moment
     for i in range(ctx.scale(40, 400)):
         yield {"k": "rewrite", "via": VIAS[i % len(VIAS)], "s": subseed("c01", ctx.seed, "rewrite", ctx.shard, i)}
+    # text holding lone surrogates outside the byte-escape range: a record is either refused by the packer or round-trips
+    for i in range(ctx.scale(24, 240)):
+        yield {"k": "surrogate", "via": VIAS[i % len(VIAS)], "s": subseed("c01", ctx.seed, "surrogate", ctx.shard, i)}
     # unrelated configuration must not leak into the stream: comparison ignore-lists active while writing / reading
     for i in range(ctx.scale(24, 200)):
         yield {"k": "cfg", "via": VIAS[i % len(VIAS)], "ignore": [["_generated"], ["_source", "_version"], ["<first>"], ["<all>"]][i % 4],
@@ -124,6 +129,40 @@ def roundtrip(ctx, records, via):
             pass
 
 
+def surrogate_records(ctx, seed):
+    """Records whose text fields hold lone surrogates OUTSIDE U+DC80..DCFF (which no byte sequence decodes to) next to
+    ordinary byte escapes.  Such a record may be refused by the packer (UnicodeEncodeError - property C05's known finding);
+    the ones the packer accepts take part in the round trip like any other record."""
+    import random
+
+    from flow.record import RecordDescriptor
+    from flow.record.packer import RecordPacker
+
+    rng = random.Random(seed)
+    D = RecordDescriptor("sur/x%d" % rng.randrange(3), [("string", "s"), ("string", "t"), ("string[]", "l"), ("varint", "n"), ("path", "p")])
+    lone = ["\ud800", "\ud83d", "a\udbffz", "\udc00", "\udc7f", "\udfff", "\ud83d\ud83d", "x\ud800\udcff"]
+    esc = ["\udcff", "caf\udce9", "plain", "", "\udc80\udcfe tail"]
+    cand = []
+    for j in range(rng.randint(3, 8)):
+        kind = rng.choice(["lone-s", "lone-l", "clean", "lone-s"])
+        cand.append(D(s=rng.choice(lone) if kind == "lone-s" else rng.choice(esc), t=rng.choice(esc),
+                      l=[rng.choice(esc), rng.choice(lone)] if kind == "lone-l" else [rng.choice(esc)], n=j, p=rng.choice(["/a/" + rng.choice(esc), None])))
+    out = []
+    for r in cand:
+        try:
+            RecordPacker().pack(r)
+        except UnicodeEncodeError:
+            ctx.event("surrogate_records_refused_by_the_packer")
+            continue
+        except Exception as e:  # noqa: BLE001
+            ctx.violation(None, "packing a record with a lone surrogate raised %s (neither refused with UnicodeEncodeError nor packed)" % type(e).__name__, detail={"exception": repr(e)[:300]})
+            continue
+        ctx.event("surrogate_records_accepted_by_the_packer")
+        out.append(r)
+    ctx.event("surrogate_candidates", len(cand))
+    return out
+
+
 def big_frame_records(seed):
     """A few records whose frames exceed 1 MiB (highly compressible and incompressible payloads) between small ones."""
     import random
@@ -143,6 +182,71 @@ def big_frame_records(seed):
     return out
 
 
+RAW_ELEMENTS = {
+    "path": ["/etc/passwd", "ab", "relative/x y", "c"],
+    "command": ["ls -la /tmp", "/bin/sh -c 'echo hi'", "x"],
+    "digest": [("d41d8cd98f00b204e9800998ecf8427e", None, None), (None, "da39a3ee5e6b4b0d3255bfef95601890afd80709", None)],
+    "string": ["raw text", b"raw \xff bytes", ""],
+    "wstring": ["raw w"],
+    "varint": [0, -1, 2**70],
+    "uint16": [0, 65535],
+    "uint32": [4294967295],
+    "float": [1, 2.5],
+    "boolean": [True, 0],
+    "uri": ["http://raw.example/x?y"],
+    "net.ipaddress": ["10.1.2.3", "2001:db8::5"],
+    "net.ipnetwork": ["10.0.0.0/8", "10.1.2.3"],
+    "filesize": [12345],
+    "unix_file_mode": [0o644],
+    "net.tcp.Port": [443],
+}
+PENDING_RAW = []  # one entry per untyped element put into a typed list (counter for the evidence)
+
+
+def is_typed_list(v):
+    """T[] field values: the library builds one list class per element type (copies of typedlist, not subclasses)."""
+    import flow.record.base as base
+
+    return isinstance(v, list) and isinstance(v, base.FieldType) and getattr(type(v), "__type__", None) is not None
+
+
+def _untyped_elements(rec, out):
+    import flow.record.base as base
+    import flow.record.fieldtypes as ft
+
+    if isinstance(rec, base.GroupedRecord):
+        for m in rec.records:
+            _untyped_elements(m, out)
+        return
+    for _, fname in rec._desc.get_field_tuples():
+        v = getattr(rec, fname)
+        if is_typed_list(v):
+            et = type(v).__type__
+            for i, x in enumerate(v):
+                if isinstance(x, (base.Record, base.GroupedRecord)):
+                    _untyped_elements(x, out)
+                elif et is not ft.record and not isinstance(x, et):
+                    out.append((v, i, x, et(x)))
+        elif isinstance(v, (base.Record, base.GroupedRecord)):
+            _untyped_elements(v, out)
+
+
+def snap(records):
+    """Observations of the records as the stream must hold them: untyped elements sitting in typed lists (put there in
+    place by the application) are observed as the value the element type makes of them.  The lists themselves are left
+    as the application made them."""
+    live = []
+    for r in records:
+        _untyped_elements(r, live)
+    for v, i, raw, typed in live:
+        list.__setitem__(v, i, typed)
+    try:
+        return [observe.obs(r) for r in records]
+    finally:
+        for v, i, raw, typed in live:
+            list.__setitem__(v, i, raw)
+
+
 def mutate_in_place(b, rng, rec, depth=0):
     """Update a record WITHOUT assigning to its own fields: through the mutable values it holds.  -> number of updates."""
     import flow.record.base as base
@@ -153,8 +257,8 @@ def mutate_in_place(b, rng, rec, depth=0):
     n = 0
     for ftype, fname in rec._desc.get_field_tuples():
         v = getattr(rec, fname)
-        if isinstance(v, ft.typedlist):
-            ops = ["append-copy", "reverse", "pop", "clear", "double", "swap", "append-new"] if len(v) else ["append-new"]
+        if is_typed_list(v):
+            ops = ["append-copy", "reverse", "pop", "clear", "double", "swap", "append-new", "append-raw", "append-raw"] if len(v) else ["append-new", "append-raw"]
             op = rng.choice(ops)
             et = type(v).__type__
             if op == "append-copy":
@@ -173,12 +277,24 @@ def mutate_in_place(b, rng, rec, depth=0):
                 v.extend(list(v))
             elif op == "swap":
                 v[0:1] = [v[-1], v[0]]
+            elif op == "append-raw" and ftype[:-2] in RAW_ELEMENTS:
+                # an UNTYPED value put into the typed list in place (no conversion happens then): the writer converts it
+                # while packing, so the stream must hold - and the reader return - what the element type makes of it
+                raw = rng.choice(RAW_ELEMENTS[ftype[:-2]])
+                if rng.random() < 0.5 or not len(v):
+                    v.append(raw)
+                    idx = len(v) - 1
+                else:
+                    idx = rng.randrange(len(v))
+                    v[idx] = raw
+                PENDING_RAW.append(1)
             else:
                 base_t = ftype[:-2]
                 if base_t == "record":
                     v.append(b.record(b.descriptor(depth=2, nfields=2, allow_keyword=False), depth=2))
                 else:
-                    v.append(et(b.value(base_t, "random", depth + 1)))
+                    x = b.value(base_t, "random", depth + 1)
+                    v.append(x if isinstance(x, et) else et(x))
             n += 1
             for x in v:
                 if isinstance(x, (base.Record, base.GroupedRecord)) and rng.random() < 0.5:
@@ -210,14 +326,19 @@ def rewriting(ctx, records, seed, snaps):
 
     rng = random.Random(seed ^ 0xA11CE)
     b = gen.Builder(rng, thorough=False, max_depth=2)
+    del PENDING_RAW[:]
     for r in records:
         snaps.append(observe.obs(r))
         yield r
     for _ in range(2):
         for r in records:
             ctx.event("in_place_updates_between_writes", mutate_in_place(b, rng, r))
+        live = []
         for r in records:
-            snaps.append(observe.obs(r))
+            _untyped_elements(r, live)
+        ctx.event("untyped_elements_sitting_in_typed_lists_when_written", len(live))
+        for r in records:
+            snaps.extend(snap([r]))
             ctx.event("records_written_again")
             yield r
 
@@ -246,14 +367,16 @@ def execute(ctx, case):
     thorough = not ctx.quick
     focus = (case["t"], case["vc"]) if case["k"] == "cell" else None
     small = case["k"] == "cell" and case["vc"] == "extreme"
-    if case["k"] == "coincident":
+    if case["k"] == "surrogate":
+        records = surrogate_records(ctx, case["s"])
+    elif case["k"] == "coincident":
         records = workload.coincident_sequence(case["s"])
     elif case["k"] == "bigframe":
         records = big_frame_records(case["s"])
     else:
         records = workload.build_sequence(case["s"], thorough=thorough, focus=focus, small=small,
                                           n_records=(2 if small else None))
-    specs = workload.last_specs() if case["k"] != "bigframe" else []
+    specs = workload.last_specs() if case["k"] not in ("bigframe", "surrogate") else []
     ctx.ev()
     # every record carries the descriptor it was created with (name and field list taken from the descriptor object the
     # generator used, not through the record)
@@ -296,6 +419,7 @@ def execute(ctx, case):
             base.set_ignored_fields_for_comparison(restore)
     after_write = [observe.obs(r) for r in records]
     if case["k"] == "rewrite":
+        after_write = snap(records)
         if before[-len(records):] != after_write:
             ctx.violation(None, "writing mutated the record", detail={"diff": observe.first_diff(before[-len(records):], after_write)})
     elif after_write != before:
